@@ -34,17 +34,19 @@ package core
 //@ func (v Value) ToDnum() (d, ok)
 //@   assumed
 //@   pure
+//@   ensures isIntV(v) ==> ok && dnIsInt(d)
 //@ func ToDnum(x) (r)
 //@   assumed
 //@   pure
+//@   ensures isIntV(x) ==> dnIsInt(r)
 //@ func ToInt(x) (r)
 //@   assumed
 //@   pure
 //@ func (si *smi) ToDnum() (d, ok)
 //@   nonil
-//@   ensures ok
+//@   ensures ok && dnIsInt(d)
 //@ func (si SuInt64) ToDnum() (d, ok)
-//@   ensures ok
+//@   ensures ok && dnIsInt(d)
 
 // integer results are exact when they fit and otherwise fall back to decimal
 // arithmetic instead of wrapping around
@@ -123,12 +125,12 @@ package core
 //@   ensures! r == hashInt(si.int64)
 //@ func (dn SuDnum) Hash() (r)
 //@   arith wrap
-//@   ensures! int: dnIsInt(dn.Dnum) && !(dn.Dnum.exp == 19 && dn.Dnum.coef >= 9223372036854775) ==> r == hashInt(dnIntVal(dn.Dnum))
+//@   ensures! int: dnIsInt(dn.Dnum) && -9223372036854775808 <= dnIntVal(dn.Dnum) && dnIntVal(dn.Dnum) <= 9223372036854775807 ==> r == hashInt(dnIntVal(dn.Dnum))
 
 // ---- equality across representations ----------------------------------------------
 //@ func (dn SuDnum) IfInt() (n, ok)
 //@   ensures ok ==> dnIsInt(dn.Dnum) && n == dnIntVal(dn.Dnum)
-//@   ensures !ok ==> !dnIsInt(dn.Dnum) || (dn.Dnum.exp == 19 && dn.Dnum.coef >= 9223372036854775)
+//@   ensures !ok ==> !dnIsInt(dn.Dnum) || dnIntVal(dn.Dnum) > 9223372036854775807 || dnIntVal(dn.Dnum) < -9223372036854775808
 //@ func (si *smi) Equal(other) (r)
 //@   requires -32768 <= absval(si) && absval(si) <= 32767
 //@   ensures! int: isIntV(other) ==> (r <==> absval(si) == ivalV(other))
@@ -136,20 +138,19 @@ package core
 //@   ensures! other: !isNumV(other) ==> !r
 //@ func (si SuInt64) Equal(other) (r)
 //@   ensures! int: isIntV(other) ==> (r <==> si.int64 == ivalV(other))
-//@   ensures! dnum: typeis(other, "SuDnum") && !(unbox(other, "SuDnum").Dnum.exp == 19 && unbox(other, "SuDnum").Dnum.coef >= 9223372036854775) ==> (r <==> dnIsInt(unbox(other, "SuDnum").Dnum) && dnIntVal(unbox(other, "SuDnum").Dnum) == si.int64)
+//@   ensures! dnum: typeis(other, "SuDnum") ==> (r <==> dnIsInt(unbox(other, "SuDnum").Dnum) && dnIntVal(unbox(other, "SuDnum").Dnum) == si.int64)
 //@   ensures! other: !isNumV(other) ==> !r
 //@ func (dn SuDnum) Equal(other) (r)
 //@   ensures! dnum: typeis(other, "SuDnum") ==> (r <==> dn.Dnum.sign == unbox(other, "SuDnum").Dnum.sign && dn.Dnum.exp == unbox(other, "SuDnum").Dnum.exp && dn.Dnum.coef == unbox(other, "SuDnum").Dnum.coef)
-//@   ensures! int: isIntV(other) && !(dn.Dnum.exp == 19 && dn.Dnum.coef >= 9223372036854775) ==> (r <==> dnIsInt(dn.Dnum) && dnIntVal(dn.Dnum) == ivalV(other))
+//@   ensures! int: isIntV(other) ==> (r <==> dnIsInt(dn.Dnum) && dnIntVal(dn.Dnum) == ivalV(other))
 //@   ensures! other: !isNumV(other) ==> !r
 
 // Equal(x, y) implies Hash(x) == Hash(y) for every pair of numeric representations
-// (integers of up to 16 digits; see DESIGN.md for the 17..19 digit corner)
 //@ lemma! equal_hash_int_dnum(i int64, d SuDnum): -9999999999999999 <= i && i <= 9999999999999999 && dnIsInt(d.Dnum) && dnIntVal(d.Dnum) == i ==> hashInt(dnIntVal(d.Dnum)) == hashInt(i)
 
 // ---- comparison: class order, then exact integer order whenever both sides are integers ----
 //@ spec sgn(n int) int = n < 0 ? -1 : n > 0 ? 1 : 0
-//@ spec dnExactInt(d SuDnum) bool = dnIsInt(d.Dnum) && !(d.Dnum.exp == 19 && d.Dnum.coef >= 9223372036854775)
+//@ spec dnExactInt(d SuDnum) bool = dnIsInt(d.Dnum)
 //@ func (si *smi) Compare(other) (r)
 //@   nonil
 //@   requires -32768 <= absval(si) && absval(si) <= 32767
@@ -162,14 +163,16 @@ package core
 //@   ensures! class2: typeis(other, "SuStr") || typeis(other, "SuDate") || typeis(other, "SuTimestamp") ==> r == -2
 //@   ensures! int: isIntV(other) ==> r == sgn(si.int64 - ivalV(other))
 //@   ensures! dnum: typeis(other, "SuDnum") && dnExactInt(unbox(other, "SuDnum")) ==> r == sgn(si.int64 - dnIntVal(unbox(other, "SuDnum").Dnum))
+//@   ensures! nonint: typeis(other, "SuDnum") && !dnIsInt(unbox(other, "SuDnum").Dnum) ==> r != 0
 //@ func (dn SuDnum) Compare(other) (r)
 //@   nonil
 //@   ensures! class: typeis(other, "SuBool") ==> r == 2
 //@   ensures! class2: typeis(other, "SuStr") || typeis(other, "SuDate") || typeis(other, "SuTimestamp") ==> r == -2
 //@   ensures! int: isIntV(other) && dnExactInt(dn) ==> r == sgn(dnIntVal(dn.Dnum) - ivalV(other))
+//@   ensures! nonint: isIntV(other) && !dnIsInt(dn.Dnum) ==> r != 0
 
 // Equal is symmetric between an integer and a decimal, and agrees with Compare == 0
-//@ lemma! equal_symmetric_int_dnum(i SuInt64, d SuDnum, iv Value, dv Value): typeis(iv, "SuInt64") && unbox(iv, "SuInt64") == i && typeis(dv, "SuDnum") && unbox(dv, "SuDnum") == d && !(d.Dnum.exp == 19 && d.Dnum.coef >= 9223372036854775) ==> (dnIsInt(d.Dnum) && dnIntVal(d.Dnum) == i.int64 <==> dnIsInt(d.Dnum) && dnIntVal(d.Dnum) == ivalV(iv))
+//@ lemma! equal_symmetric_int_dnum(i SuInt64, d SuDnum, iv Value, dv Value): typeis(iv, "SuInt64") && unbox(iv, "SuInt64") == i && typeis(dv, "SuDnum") && unbox(dv, "SuDnum") == d ==> (dnIsInt(d.Dnum) && dnIntVal(d.Dnum) == i.int64 <==> dnIsInt(d.Dnum) && dnIntVal(d.Dnum) == ivalV(iv))
 
 //@ property C41
 // IDbms methods that the unauthorized wrapper forwards although the property
